@@ -328,16 +328,23 @@ class Desugar:
         if s.k == "rep":
             x = self.sym(s.inner, {})
             r = self.fresh_name("rep" + {"*": "S", "+": "P", "?": "Q"}[s.op])
-            self.sugar_nts.add(r)
             if s.op == "?":
+                # `X?` behaves as an inlined nonterminal: X => Some(<>) | => None
+                self.sugar_nts.add(r)
                 self.prods.append(Prod(r, [x], ("some", 0), meta="opt"))
                 self.prods.append(Prod(r, [], ("none",), meta="opt"))
             elif s.op == "+":
+                # `X+` is a real left-recursive nonterminal
                 self.prods.append(Prod(r, [x], ("one", 0), meta="plus"))
                 self.prods.append(Prod(r, [r, x], ("push", 0, 1), meta="plus"))
             else:
+                # `X*` behaves as an inlined nonterminal: => vec![] | <v:X+> => v
+                self.sugar_nts.add(r)
+                rp = self.fresh_name("repP")
+                self.prods.append(Prod(rp, [x], ("one", 0), meta="plus"))
+                self.prods.append(Prod(rp, [rp, x], ("push", 0, 1), meta="plus"))
                 self.prods.append(Prod(r, [], ("nil",), meta="star"))
-                self.prods.append(Prod(r, [r, x], ("push", 0, 1), meta="star"))
+                self.prods.append(Prod(r, [rp], ("pick", 0), meta="star"))
             return r
         if s.k == "grp":
             r = self.fresh_name("grp")
@@ -400,4 +407,6 @@ def desugar(g):
     d = Desugar(g)
     cfg = d.run()
     cfg.sugar_nts = d.sugar_nts
+    # nonterminals that behave as inlined: sugar + user #[inline]
+    cfg.inline_nts = set(d.sugar_nts) | {n.name for n in g.nts if n.inline}
     return cfg
